@@ -365,10 +365,11 @@ def regenerate(eng=None):
 # =============================================================================================
 # The tie
 # =============================================================================================
-RULE = ("every (dictionary, name/alias, size) for sizes 0..64 plus sampled sizes up to 256 (quick) / 4096 "
+RULE = ("every (dictionary, name/alias, size) for sizes 0..96 plus sampled sizes up to 256 (quick) / 4096 "
         "(thorough), blackman/cos over an alpha grid (int and float alphas, defaults), several access routes; "
         "a small malformed stream (unknown names, alpha for strategies without one, negative alpha for cos, "
-        "negative sizes).  Non-trivial: the impl returns a list of at least 2 samples; distinct = distinct JSON case")
+        "negative sizes); plus the documented closed form (docstring `.. math::`) of every strategy evaluated by a small "
+        "LaTeX evaluator.  Non-trivial: the impl returns a list of at least 2 samples; distinct = distinct JSON case")
 TRUSTED = [
     "translator T2 (harness/props/c14.py: ast -> lean/ALV/Gen/Windows.lean), cross-checked on every run: the generated "
     "definitions are evaluated at Float by the driver and compared with the lists the real strategies return",
@@ -420,15 +421,17 @@ def _names():
 def generate(rng, tier, scale=1):
     cases = []
     quick = tier == "quick"
-    dense = 64 if quick else 200
+    dense = 96 if quick else 200
     top = 256 if quick else 4096
-    nsamp = (10 if quick else 60) * scale
-    nalpha = (14 if quick else 120) * scale
+    nsamp = (14 if quick else 60) * scale
+    nalpha = (30 if quick else 120) * scale
     for dict_ in ("window", "wsymm"):
         for kind, names in _names():
             for name in names:
                 sizes = list(range(0, dense + 1)) if scale == 1 else []
                 sizes += [rng.randint(dense + 1, top) for _ in range(nsamp)]
+                if dict_ == "wsymm" and name in ("dirichlet", "rectangular"):
+                    sizes = sizes[:6]          # observation O1 (aliases missing in wsymm): a few probes suffice
                 if scale == 1:
                     sizes += [top, top - 1] if name == names[0] else []
                 for size in sizes:
